@@ -385,11 +385,12 @@ def run(ctx: F.Ctx):
         _SC.clear()
     meta = {
         "rule": (
-            "5 scenarios (db create with three ZID-less notes on two pages; db reindex a day later "
+            "6 scenarios (db create with three ZID-less notes on two pages; db reindex a day later "
             "with an edited note, a new note, a new page, a new page in a sub-directory and an untouched page; db reindex with two "
             "changed pages sharing a tag whose other holder dropped it; db create -f with a broken "
             "page; db reindex after changes that need no write-back: a new page whose notes carry "
-            "ZIDs, a deleted page, a header-only edit). Effects intercepted in program order: Path.write_text, Path.open(w), touch, "
+            "ZIDs, a deleted page, a header-only edit; db reindex of a page whose edited first and last notes surround notes "
+            "with properties, single-use tags and a link). Effects intercepted in program order: Path.write_text, Path.open(w), touch, "
             "unlink, rename, Session.commit. For every k in 1..N the command is killed (os._exit) "
             "immediately before effect k, then re-run to completion and judged: exits cleanly, raw "
             "index == recompiled files, every note has a ZID, no ZID on two notes, the multiset of "
